@@ -16,5 +16,6 @@ import (
 	_ "fxmc/props/c13"
 	_ "fxmc/props/c14"
 	_ "fxmc/props/c15"
+	_ "fxmc/props/c16"
 	_ "fxmc/props/c18"
 )
